@@ -413,19 +413,59 @@ def eventmap_typestate(rep, idx, rule):
                         guards.append(d)
         rep.check(bool(guards), rule, add.site, "store guarded by an absence test on the same key",
                   f"key {ir.show(key)}: re-adding a source must keep its first index (stable numbering)")
-        # (b) the index stored is the current size, read before the store
-        idx_ok = val[0] == 'tuple' and len(val[1]) == 2 and \
-            val[1][1] in (ir.parse("self.size"), ir.norm(ir.parse("len(self._sources)")))
-        rep.check(idx_ok, rule, add.site, "stored index is the number of sources already present",
-                  f"stored value is {ir.show(val)}; dense numbering in order of first addition needs (src, self.size)")
+        # (b) the index stored is the number of sources already present, read before the store: either the table's size,
+        #     or a private counter that starts at 0 and is advanced by one exactly where a source is stored
+        size_forms = (ir.parse("self.size"), ir.norm(ir.parse("len(self._sources)")))
+        stored_idx = val[1][1] if val[0] == 'tuple' and len(val[1]) == 2 else None
+        counter = None
+        if stored_idx is not None and stored_idx not in size_forms and stored_idx[0] == 'attr' and stored_idx[1] == ('name', 'self'):
+            counter = stored_idx[2]
+        if stored_idx in size_forms:
+            rep.ok(rule, add.site, "stored index is the number of sources already present", f"stored value is {ir.show(val)}")
+        elif counter is not None:
+            init = cls.method("__init__")
+            inits = [n for n in ast.walk(init.node) if isinstance(n, ast.Assign) and len(n.targets) == 1 and
+                     ast.unparse(n.targets[0]) == f"self.{counter}"] if init else []
+            init_ok = len(inits) == 1 and isinstance(inits[0].value, ast.Constant) and inits[0].value.value == 0
+            writes = []
+            for name_, fs_ in cls.methods.items():
+                for f_ in fs_:
+                    for n in ast.walk(f_.node):
+                        if isinstance(n, (ast.Assign, ast.AugAssign)):
+                            for t_ in (n.targets if isinstance(n, ast.Assign) else [n.target]):
+                                if ast.unparse(t_) == f"self.{counter}" and f_.name != "__init__":
+                                    writes.append((f_, n))
+            incs = [n for f_, n in writes if f_.name == "add" and isinstance(n, ast.AugAssign) and isinstance(n.op, ast.Add) and
+                    isinstance(n.value, ast.Constant) and n.value.value == 1]
+            inc_nodes = [x.id for x in g.nodes if x.kind == "stmt" and x.ast in incs]
+            dom_all = g.dominators()
+            guarded = bool(inc_nodes) and all(stores[0].id in dom_all[i] for i in inc_nodes)
+            pdom = g.postdominators([g.exit.id])
+            always = bool(inc_nodes) and any(i in pdom.get(stores[0].id, ()) for i in inc_nodes)
+            if init_ok and len(writes) == 1 and len(incs) == 1 and guarded and always:
+                rep.ok(rule, add.site, "stored index is the number of sources already present",
+                       f"private counter self.{counter}: starts at 0, advanced by one exactly when a source is stored")
+            elif incs and not guarded:
+                rep.bad(rule, add.site, "stored index is the number of sources already present",
+                        f"the index comes from self.{counter}, which is also advanced when nothing is added (repeated add of the same source): "
+                        "numbering is no longer dense")
+            else:
+                rep.form(False, rule, add.site, "stored index is the number of sources already present", f"stored value is {ir.show(val)}")
+        else:
+            rep.form(False, rule, add.site, "stored index is the number of sources already present", f"stored value is {ir.show(val)}",
+                     wrong="the index is not read before the store (dense numbering in order of first addition needs the current count)"
+                     if stored_idx is not None and stored_idx[0] in ('lin', 'const') else None)
         # (c) key is id(src) of the parameter
         rep.check(key == ir.parse("id(src)"), rule, add.site, "table keyed by the identity of the source",
                   f"key is {ir.show(key)}", nontrivial=False)
     size = cls.method("size")
     if size is not None:
         rets = [s for s in ast.walk(size.node) if isinstance(s, ast.Return)]
-        rep.check(len(rets) == 1 and ir.norm(ir.from_ast(rets[0].value, {})) == ir.norm(ir.parse("len(self._sources)")),
-                  rule, size.site, "size == len(self._sources)", "size must count the table the indices are drawn from")
+        rv = ir.norm(ir.from_ast(rets[0].value, {})) if len(rets) == 1 else None
+        same_counter = rv is not None and len(stores) == 1 and rv == ir.norm(ir.from_ast(stores[0].ast.value, {}))[1][1:2][0:1][0] \
+            if (len(stores) == 1 and ir.norm(ir.from_ast(stores[0].ast.value, {}))[0] == 'tuple') else False
+        rep.form(rv == ir.norm(ir.parse("len(self._sources)")) or same_counter, rule, size.site,
+                 "size counts the table the indices are drawn from", f"returns {ir.show(rv) if rv else None}")
     srcs = cls.method("sources")
     if srcs is not None:
         body = [s for s in srcs.node.body if not (isinstance(s, ast.Expr) and isinstance(s.value, ast.Constant))]
